@@ -7,6 +7,7 @@ package main
 // not yet logged), was started again and given the operation a second time.
 
 import (
+	"encoding/json"
 	"fmt"
 	"os"
 	"path/filepath"
@@ -97,6 +98,7 @@ func (r *reinitRun) signsAfterRestart(b *cluster, round string, groupKey []byte,
 	}
 	// (1) every machine is stopped, started again on its database, unlocked, and the round's operations log replayed
 	for i, nd := range b.nodes {
+		old := nd.air
 		nd.air.VerifCloseDB()
 		m, err := openClusterMachine(nd, filepath.Join(nd.dir, "airgapped"), b.password)
 		if err != nil {
@@ -106,6 +108,9 @@ func (r *reinitRun) signsAfterRestart(b *cluster, round string, groupKey []byte,
 		nd.air = m
 		if err := m.ReplayOperationsLog(round); err != nil {
 			r.note(fmt.Sprintf("%s: machine %d restarted after the re-initialisation: ReplayOperationsLog: %v", tag, i, err))
+		}
+		if r.air != nil && r.air.stopped(old, m) {
+			r.air.reinitReplayed(m, round)
 		}
 		r.st.ReinitRestarts++
 		if got, _ := keyringOf(m, round); got != shares[i] {
@@ -147,10 +152,17 @@ func (r *reinitRun) signsAfterRestart(b *cluster, round string, groupKey []byte,
 			r.mon("harness: " + err.Error())
 			return
 		}
+		var first types.Operation
+		var ferr error = fmt.Errorf("panic")
 		func() {
 			defer func() { recover() }()
-			m.GetOperationResult(*reinitOp) // handled, not logged: the process dies here
+			first, ferr = m.GetOperationResult(*reinitOp) // handled, not logged: the process dies here
 		}()
+		if r.air != nil {
+			fb, _ := json.Marshal(first)
+			r.air.recordReinit(b, &vnode{air: m, idx: i, name: nd.name}, *reinitOp, fb, ferr)
+		}
+		died := m
 		_, saved := keyringOf(m, round)
 		m.VerifCloseDB()
 		if !saved {
@@ -167,6 +179,15 @@ func (r *reinitRun) signsAfterRestart(b *cluster, round string, groupKey []byte,
 		nd.air = m
 		r.st.ReinitRestarts++
 		out := tryOperation(m, *reinitOp, true)
+		if r.air != nil && r.air.stopped(died, m) {
+			switch out.kind {
+			case "result", "error-result":
+				ob, _ := json.Marshal(out.result)
+				r.air.recordReinit(b, nd, *reinitOp, ob, nil)
+			case "fatal":
+				r.air.recordReinit(b, nd, *reinitOp, nil, fmt.Errorf("%s", out.err))
+			}
+		}
 		if out.kind != "result" {
 			r.note(fmt.Sprintf("%s: machine %d handed the reinit operation a second time after dying in it answers %s %s", tag, i, out.kind, truncate(out.err, 160)))
 		}
